@@ -6,7 +6,7 @@ from props_common import BASE_TB
 _WQ, _WT = 8, 14
 
 PROP = {
-    "modules": ["YorkieModel.Props.C20"],
+    "modules": ["YorkieModel.Props.C20", "YorkieModel.Props.C20Srv"],
     "engines": [
         # integrated engine: real client SDK + real in-process server (memory DB), traffic captured at the HTTP transport
         {"name": "srv", "args": ["orc=c20"], "quick": {"n": 320, "workers": 8}, "thorough": {"n": 8000, "workers": 14}},
